@@ -748,7 +748,10 @@ fn gen_c10(case_seed: u64, case: u64, tier: Tier) -> Plan {
 	let mut opts = random_opts(&mut rng);
 	opts.versioning = true;
 	opts.versioned_index = rng.chance(1, 2);
-	opts.retention_ns = 0;
+	// retention: unlimited in two thirds of the cases, otherwise a window of a few commits
+	// (the simulated clock moves 1000 ns per commit plus the Advance steps below)
+	opts.retention_ns = if rng.chance(1, 3) { *rng.pick(&[2_500u64, 6_000, 20_000]) } else { 0 };
+	let finite = opts.retention_ns > 0;
 	opts.vlog_max_file = *rng.pick(&[512u64, 4096, 1 << 20]);
 	opts.memtable = *rng.pick(&[2048usize, 4096, 8192]);
 	let nkeys = rng.range(2, 6) as u16;
@@ -762,7 +765,9 @@ fn gen_c10(case_seed: u64, case: u64, tier: Tier) -> Plan {
 	};
 	let mut logical: Vec<Step> = Vec::new();
 	let mut used_ts: Vec<u64> = Vec::new();
-	let mut commit_no: u64 = 0;
+	// the simulated clock as the executor will see it (explicit timestamps follow it so that
+	// timestamps per key never decrease)
+	let mut clock: u64 = 0;
 	let queries = |rng: &mut Rng, out: &mut Vec<Step>, used: &Vec<u64>| {
 		out.push(Step::Begin { a: 1, mode: ModeS::ReadOnly });
 		for _ in 0..rng.range(1, 3) {
@@ -788,9 +793,14 @@ fn gen_c10(case_seed: u64, case: u64, tier: Tier) -> Plan {
 		out.push(Step::DropTxn { a: 1 });
 	};
 	for i in 0..n {
+		if finite && rng.chance(1, 4) {
+			let ns = *rng.pick(&[1_000u64, 3_000, 10_000]);
+			logical.push(Step::Advance { ns });
+			clock += ns;
+		}
 		logical.push(Step::Begin { a: 0, mode: ModeS::ReadWrite });
-		commit_no += 1;
-		let base = 1000 * (commit_no - 1);
+		let base = clock;
+		clock += 1000; // the commit below
 		let nw = rng.range(1, 3);
 		let mut left = budget;
 		let mut touched: Vec<u16> = Vec::new();
@@ -812,7 +822,7 @@ fn gen_c10(case_seed: u64, case: u64, tier: Tier) -> Plan {
 				}
 				3 => {
 					let len = value_len(&mut rng).min(left - 60).max(8);
-					used_ts.push(1000 * commit_no);
+					used_ts.push(clock);
 					logical.push(Step::Replace { a: 0, k, v: tags.next(len) });
 					left = left.saturating_sub(60 + len);
 				}
